@@ -16,7 +16,32 @@ pub fn meta() -> Meta {
 }
 
 pub fn ep(c: i128, s: TimeScale) -> Epoch {
-    Epoch::from_duration(mk(c), s)
+    let e = Epoch::from_duration(mk(c), s);
+    pretouch(&e, c);
+    e
+}
+
+/// History diversity for state keyed on the value in hand: one epoch in 32 (chosen by a hash of its count, so the same
+/// epochs in every run) is first *touched* through read-only accessors that no monitor judges at this point - the SOFA
+/// and IERS variants of the leap-second lookup, the calendar, weekday and day-of-year readers, a conversion to every scale -
+/// before the monitor that asked for the epoch uses it. The library keeps no state between calls today, so this changes
+/// nothing on the unchanged tree; a memo of "the entry / year / day that matched last" which forgets part of its key
+/// (the iers-only flag, the time scale, the sign) answers the monitored call from what the touch left behind.
+pub fn pretouch(e: &Epoch, c: i128) {
+    if h64(&[c as u64, (c >> 64) as u64, 0x70c4]) >> 59 != 0 {
+        return;
+    }
+    let e = *e;
+    let _ = guard(move || {
+        let a = (e.leap_seconds(false), e.leap_seconds(true), e.leap_seconds_iers());
+        let b = (e.to_gregorian_utc(), e.to_gregorian_tai(), e.weekday(), e.weekday_utc(), e.day_of_year(), e.year());
+        let mut k = 0i128;
+        for s in crate::model::scale::SCALES {
+            k += e.to_duration_in_time_scale(s).to_parts().1 as i128;
+        }
+        let _ = (e.to_unix_seconds(), e.to_mjd_utc_days(), e.to_jde_et_days());
+        std::hint::black_box((a, b, k));
+    });
 }
 
 fn named(e: &Epoch, s: TimeScale) -> Duration {
